@@ -4,7 +4,7 @@ meta.json of every seeded change listed in the output of tools/run_round.sh."""
 import json, re, sys
 hist = json.load(open(sys.argv[2])) if len(sys.argv) > 2 else {}
 for l in open(sys.argv[1]):
-    mm = re.match(r"(m\d) (C\d\d) (\w+) exit=(\d+) \|\s*(?:oracle=(\S+) world=(.*?) seed=.*?)?\|", l)
+    mm = re.match(r"(m\d+) (C\d\d) (\w+) exit=(\d+) \|\s*(?:oracle=(\S+) world=(.*?) seed=.*?)?\|", l)
     if not mm:
         continue
     m, p, tier, code, oracle, world = mm.groups()
